@@ -12,16 +12,20 @@ def relabelHalf (a b h : Nat) : Nat :=
 
 def relabelId (a b x : Nat) : Nat := if x == a then b else if x == b then a else x
 
-/-- cc:1431-1453.  The cache writes are guarded by the face-incidence flag. -/
+/-- exchange the two cell indices in one slot of `incident_cell_per_hf_` -/
+def swapCellEntry (a b : Nat) (ic : List (Option Nat)) (hf : Nat) : List (Option Nat) :=
+  match ic.getD hf none with
+  | some c => if c == a then ic.set hf (some b) else if c == b then ic.set hf (some a) else ic
+  | none => ic
+
+/-- cc:1431-1462.  Every halfface listed by either cell is visited once (processed-set); the
+    cache writes are guarded by the face-incidence flag. -/
 def swapCell (k : Kernel) (a b : Nat) : Kernel :=
   if a == b then k else
-  let k1 := if k.fBU then
-      let ic := (k.cellAt a).foldl (fun ic hf => if ic.getD hf none == some a then ic.set hf (some b) else ic) k.incCell
-      let ic := (k.cellAt b).foldl (fun ic hf => if ic.getD hf none == some b then ic.set hf (some a) else ic) ic
-      { k with incCell := ic }
-    else k
-  { k1 with cells := swapAt k1.cells a b, cDel := swapAt k1.cDel a b,
-            props := swapCProps k1.props a b }
+  { k with incCell := if k.fBU then (dedupKeep (k.cellAt a ++ k.cellAt b)).foldl (swapCellEntry a b) k.incCell
+                      else k.incCell,
+           cells := swapAt k.cells a b, cDel := swapAt k.cDel a b,
+           props := swapCProps k.props a b }
 
 /-- cells visited by the cache-guided face swap: `incident_cell_per_hf_` of the four
     halffaces, in the C++ order, each processed once -/
